@@ -93,11 +93,16 @@ SHAPES = {
     'set': ['SpySet'], 'frozenset': ['SpyFrozenSet'], 'AbstractSet': ['SpySet', 'SpyFrozenSet', 'SpyAbstractSet'],
     'MutableSet': ['SpySet'], 'KeysView': ['keys'],
     'Collection': ['SpyList', 'SpyTuple', 'SpySet', 'SpyColl', 'SpySeq', 'SpyDeque'], 'deque': ['SpyDeque'], 'ValuesView': ['values'],
-    'Iterable': ['SpyList', 'SpyTuple', 'SpySet', 'SpyColl', 'SpyIterable', 'SpyDict'], 'Container': ['SpyList', 'SpySet', 'SpyColl'],
+    # non-collections in every flavour: plain iterable, one-shot iterators that are Sized only or Container only
+    'Iterable': ['SpyList', 'SpyTuple', 'SpySet', 'SpyColl', 'SpyIterable', 'SpyDict', 'SpySizedIterator', 'SpyContainerIterator', 'SpyIterator'],
+    'Container': ['SpyList', 'SpySet', 'SpyColl', 'SpyContainerIterator'],
     'Reversible': ['SpyList', 'SpyTuple', 'SpyDeque'],
     'dict': ['SpyDict', 'SpyOrderedDict', 'SpyDefaultDict'], 'Mapping': ['SpyDict', 'SpyMap'], 'MutableMapping': ['SpyDict'],
     'OrderedDict': ['SpyOrderedDict'], 'defaultdict': ['SpyDefaultDict'],
 }
+
+
+NON_COLLECTIONS = ('SpyIterable', 'SpySizedIterator', 'SpyContainerIterator', 'SpyIterator')
 
 
 @st.composite
@@ -202,7 +207,7 @@ def _measure(fn, top=None):
     reads = spies.COUNT['item_read']
     # repr() of the rejected (top-level) object; reprs of nested spies are part of that one repr
     reprs = sum(1 for c, m, i in spies.LOG if m == '__repr__' and i == id(top))
-    noncoll_iter = sum(1 for c, m, i in spies.LOG if c == 'SpyIterable' and m == '__iter__')
+    noncoll_iter = sum(1 for c, m, i in spies.LOG if c in NON_COLLECTIONS and m in ('__iter__', 'MUTATOR:__next__', 'iterator.__next__'))
     return out, err, {'reads': reads, 'reprs': reprs, 'noncoll_iter': noncoll_iter}
 
 
